@@ -118,6 +118,10 @@ def body(h):
     h.require('handler-completions', Q == wantQ)
     h.require('main-program-unaffected', s_and(M == 6, E == 1, F == 1))
     h.require('no-error-left', impl.interpreter.error_num == 9 or impl.interpreter.error_num == 0)
+    # the program has ended: an occurrence while a direct-mode line runs must not start the handler
+    impl.queues.inputs.put(S.Event(S.PEN_DOWN, (1, 1)))
+    impl.execute(b'M%=M%+0: M%=M%+0')
+    h.require('no-trap-without-running-program', _geti(impl, b'P%') == wantP)
     return [P, Q, M]
 
 
